@@ -2,5 +2,6 @@ SPECIFICATION Spec
 CONSTANTS
   MaxMut = 2
   MaxOldMut = 0
+  Chain = TRUE
 INVARIANTS SchemasWellFormed UsableReflexive Lemmas Emit
 VIEW view
